@@ -53,6 +53,14 @@ def stepLine (st : MSt) (line : String) : MSt × String :=
       -- a log call from within a Display implementation: the inner line first, then the outer one
       -- (Fmt.emit: post-order), then the next record
       | ["RECURSE", _mode, _target] => (st, Drv.textToHex "inner1\nouter x1\nplain\n".toList)
+      -- nested `depth` levels deep: the innermost line first
+      | ["RECURSE", _mode, _target, depth] =>
+        match depth.toNat? with
+        | some d =>
+          if d = 0 then (st, "bad-op") else
+          let mids := (List.range (d - 1)).map (fun j => s!"inner{j + 2} x{j + 1}\n")
+          (st, Drv.textToHex (("inner1\n" ++ String.join mids ++ s!"outer x{d}\nplain\n").toList))
+        | none => (st, "bad-op")
       | _ => (st, "bad-op")
     -- robustness histories (C10): the only prediction is "the call returns"
     | .robust => (st, "ok")
